@@ -47,13 +47,19 @@ TRUSTED = [
 ]
 ASSUMPTIONS = ["exact real/complex arithmetic in the theorems; implementation compared to 1e-7 (oracle) / 1e-9 (tie)",
                "all listed amplitudes are non-zero (|a| >= 0.02 in the generators)"]
-RULE = ("tie: (initializer, options, ordered dictionary) whose trace (selections, tracked dictionaries after every step, angles, dense "
+RULE = ("branch coverage: key sets pre-screened with the recording wrappers so that every operand-kind combination reaching "
+        "merge's _compute_angles (complex/complex, float/complex, complex/float, float/float), every pivot MCX back-end / ladder "
+        "length and every CVO control count is exercised with complex and negative-real amplitudes (histogram in branch_histogram); "
+        "tie: (initializer, options, ordered dictionary) whose trace (selections, tracked dictionaries after every step, angles, dense "
         "hand-off vector, flattened gate list with opaque multi-controlled gates) was diffed against the Lean model; oracle: "
         "Statevector(definition) vs embedded dictionary on the full register; distinct = different (variant, ordered keys, amplitude kind); "
         "non-trivial = m >= 2")
 DRIVER = "Drivers/C06.lean"
 
 TOL = 1e-7
+OPK = {"cc": "complex/complex", "fc": "float/complex", "cf": "complex/float", "ff": "float/float"}
+# key sets on which merge's `_compute_angles` receives (complex, float): a still-unmerged entry first, a merged norm second
+MERGE_FIXED = [["0000", "0001", "0010", "0100", "1100", "1101", "1110"]]
 BUILD_LIMIT_S = 20      # a construction that runs longer than this is reported as non-terminating
 
 
@@ -113,6 +119,8 @@ def amplitudes(ctx, m, kind):
             v = [complex(r.uniform(0.2, 1.0), 0.0) for _ in range(m)]
         elif kind == "signed":
             v = [complex(r.choice([-1, 1]) * r.uniform(0.2, 1.0), 0.0) for _ in range(m)]
+        elif kind == "neg":
+            v = [complex(-r.uniform(0.2, 1.0), 0.0) for _ in range(m)]
         elif kind == "uniform":
             v = [complex(1.0, 0.0)] * m
         else:
@@ -280,6 +288,22 @@ def tie_case(ctx, alg, opts, keys, amps):
         return
     ctx.tie(op, lines, label=f"{vname(alg, opts)} n={n} keys={','.join(keys)}")
     ctx.count(f"tie:{vname(alg, opts)}")
+    # coverage of the type- / order- / size-dependent branches actually taken by the real code
+    if alg == "merge":
+        for k in T.LAST["merge_kinds"]:
+            ctx.count(f"branch:merge._compute_angles operands {OPK[k]}")
+    elif alg == "cvo":
+        for k in set(T.LAST["cvo_branches"]):
+            ctx.count(f"branch:cvo._compute_matrix_angles {k}")
+    toks = set()
+    seen_gates = False
+    for ln in lines:
+        if ln.startswith("gates"):
+            seen_gates = True
+        elif seen_gates:
+            toks.add(ln.split()[0].split("[")[0])
+    for tk in toks - {"x", "cx", "lowrank"}:
+        ctx.count(f"branch:{vname(alg, opts)} emits {tk}")
 
 
 def string_ops_tie(ctx, nmax):
@@ -344,10 +368,105 @@ def compare(op, impl, model):
 KINDS = ["complex", "signed", "pos", "mixed", "uniform"]
 
 
+def merge_operand_kinds(keys):
+    """operand-kind pattern (one of cc/fc/cf/ff per merge step) that the REAL MergeInitialize produces on this key set;
+    depends on the keys only (types flow: original entries are complex, merged entries are np.float64 norms)"""
+    from props import c06_trace as T
+    m = len(keys)
+    try:
+        with time_limit(BUILD_LIMIT_S):
+            T.trace_merge({k: complex(1.0 / math.sqrt(m), 0.0) for k in keys})
+    except Exception:
+        return None
+    return list(T.LAST["merge_kinds"])
+
+
+def screened_merge_sets(ctx, per_kind, budget):
+    """pre-screen random key sets (n = 4..6, m = 7..12) with the recording wrappers and keep `per_kind` sets for every
+    operand-kind combination reaching `_compute_angles`; deterministic given the seed; the fixed examples come first"""
+    keep = {k: [] for k in OPK}
+    chosen = []
+
+    def offer(keys):
+        pat = merge_operand_kinds(keys)
+        if not pat:
+            return
+        took = False
+        for k in sorted(set(pat), key=lambda z: pat.count(z)):
+            if len(keep[k]) < per_kind and not took:
+                keep[k].append(keys)
+                took = True
+        if took:
+            chosen.append((keys, pat))
+
+    for keys in MERGE_FIXED:
+        offer(list(keys))
+    tried = 0
+    while tried < budget and any(len(v) < per_kind for v in keep.values()):
+        n = ctx.rng.randint(4, 6)
+        m = ctx.rng.randint(7, 12)
+        offer(ctx.rng.sample(all_keys(n), m))
+        tried += 1
+    for k, v in keep.items():
+        ctx.count(f"screen:merge key sets kept for {OPK[k]}", len(v))
+    ctx.count("screen:merge key sets screened", tried + len(MERGE_FIXED))
+    missing = [OPK[k] for k, v in keep.items() if not v]
+    if missing:
+        ctx.notes.append(f"merge operand-kind screening found no key set for {missing} within {budget} tries")
+    return chosen
+
+
+def branch_coverage_cases(ctx, variants):
+    """inputs chosen for the branch they reach (not for their size): see RULE"""
+    quick = ctx.quick
+    names = {vname(*v) for v in variants}
+    # (a) merge: every operand-kind combination of _compute_angles, with complex / negative-real / mixed amplitudes
+    if "merge" in names:
+        for keys, pat in screened_merge_sets(ctx, 3 if quick else 8, 1500 if quick else 6000):
+            for kind in ("complex", "neg", "mixed"):
+                ks = list(keys)
+                if kind != "complex":
+                    ctx.rng.shuffle(ks)
+                amps = amplitudes(ctx, len(ks), kind)
+                tie_case(ctx, "merge", {}, ks, amps)
+                oracle_case(ctx, "merge", {}, ks, amps, kind + ":ops=" + "".join(sorted(set(pat))))
+    # (b) pivot: every multi-controlled-X back-end and ladder length: t = 1..5 controls, n below / above the
+    #     `num_qubits >= 5 and control_size <= ceil(n/2)` switch, auxiliaries on (rccx ladder with >= 2 inner rungs needs m >= 9)
+    for n, m in [(4, 2), (4, 3), (4, 6), (5, 2), (5, 3), (5, 6), (5, 9), (5, 13), (6, 9), (6, 11), (6, 17), (7, 9)]:
+        if quick and (n, m) in ((6, 17), (7, 9)):
+            continue
+        for rep in range(1 if quick else 3):
+            sub = ctx.rng.sample(all_keys(n), m)
+            if not any(k[0] == "1" for k in sub):          # make sure at least one pivot step happens
+                sub[0] = "1" + sub[0][1:] if ("1" + sub[0][1:]) not in sub else sub[0]
+            for alg, opts in variants:
+                if alg != "pivot" or not valid(alg, opts, m):
+                    continue
+                kind = ctx.rng.choice(["complex", "neg", "signed"])
+                keys = order_for(ctx, alg, sub)
+                amps = amplitudes(ctx, m, kind)
+                tie_case(ctx, alg, opts, keys, amps)
+                oracle_case(ctx, alg, opts, keys, amps, kind)
+    # (c) cvoqram: 0 / 1 / >= 2 controls (u, cu, multi-controlled) incl. the all-zero pattern, every back-end,
+    #     features with negative imaginary part (beta reflection) and negative reals
+    for n, sub in [(3, ["000", "100", "011", "111"]), (4, ["0000", "0010", "1001", "0111", "1111"]),
+                   (5, ["00000", "00001", "10000", "01100", "11010", "10111", "11111"])]:
+        for alg, opts in variants + [v for v in ORACLE_EXTRA if vname(*v) not in names]:
+            if alg != "cvo":
+                continue
+            for kind in ("complex", "neg"):
+                keys = hamming_sorted(ctx, sub)
+                amps = amplitudes(ctx, len(keys), kind)
+                if (alg, opts) in variants:
+                    tie_case(ctx, alg, opts, keys, amps)
+                oracle_case(ctx, alg, opts, keys, amps, kind)
+
+
 def run(ctx, nmax_or=None, n_orders=None, only=None):
     quick = ctx.quick
     variants = [v for v in VARIANTS if only is None or vname(*v) in only]
     string_ops_tie(ctx, 4 if quick else 5)
+    branch_coverage_cases(ctx, variants)
 
     # ---- tie: exhaustive n <= 3 (every subset with m >= 2), several insertion orders
     n_orders = n_orders or (2 if quick else 4)
